@@ -1,16 +1,261 @@
 (** C07 — join and meet are the least upper and greatest lower bounds.
-    The code computes [double(union of extents)] resp. [double(intersection)] and looks
-    the result up in the extent mapping.  Proved here: [double] is the closure (so the
-    join extent is the closure of the union and the meet extent is the intersection
-    itself), and these are the lub / glb among closed extents; the order is recovered
-    from join and meet.  [_partial]: that the final mapping lookup cannot miss needs the
-    completeness of the enumeration (C03); it is covered by the correspondence. *)
+
+    "lattice.join returns the least concept above all of them (extent = closure of the union of
+    extents), lattice.meet the greatest concept below all of them (extent = intersection); the
+    empty join is the infimum and the empty meet the supremum.  The binary methods and operators
+    agree with this, and therefore satisfy commutativity, associativity, idempotence, absorption
+    and x <= y iff x | y is y iff x & y is x."
+
+    END-TO-END: [L] is the value returned by the model of [Context.lattice] ([build_lattice],
+    satisfiable by [C03_terminates]).  Concepts are passed and returned as positions in the
+    lattice; [nth_extent (l_exts L) i] is the extent of the i-th member and [concept_at L k x]
+    says [x] is the k-th member.  The code computes [double(union)] resp. [double(intersection)]
+    and looks the result up in the extent mapping; the theorems say the lookup succeeds and
+    returns THE member with the lub / glb extent ("is": equality of positions). *)
 From Coq Require Import ZArith List Bool.
-From Concepts Require Import Base.Res Base.PyInt Base.BitSet Spec.FCA Spec.Context
-  Model.Matrices Model.ContextApi Model.Lattice Proofs.Matrices Proofs.ContextApi Proofs.Closure
-  Proofs.LatticeBasics.
+From Concepts Require Import Base.Res Base.PyInt Base.BitSet Spec.FCA Spec.Context Spec.LatticeSpec
+  Model.Matrices Model.ContextApi Model.Members Model.Lattice Proofs.Matrices Proofs.ContextApi Proofs.Closure
+  Proofs.LatticeBasics Proofs.BuildLattice Proofs.LatticeQueries Proofs.Assemble.
 Import ListNotations.
 Open Scope Z_scope.
+
+(** * n-ary join and meet *)
+
+Theorem C07_lattice_join : forall fuel dfuel c L cs,
+  wf_ctx c -> (Nat.max (nG c) (nM c) <= dfuel)%nat -> build_lattice fuel dfuel (relation_new c) = Ok L ->
+  exists k x, lattice_join dfuel L cs = Ok k /\ concept_at L k x
+    (* extent = closure of the union of the extents *)
+    /\ c_extent x = clO c (fold_left Z.lor (map (nth_extent (l_exts L)) cs) 0)
+    /\ c_intent x = upO c (fold_left Z.lor (map (nth_extent (l_exts L)) cs) 0)
+    (* upper bound *)
+    /\ (forall i, In i cs -> subset (nth_extent (l_exts L) i) (c_extent x))
+    (* least among the members of L *)
+    /\ (forall j y, concept_at L j y ->
+          (forall i, In i cs -> subset (nth_extent (l_exts L) i) (c_extent y)) ->
+          subset (c_extent x) (c_extent y) /\ (k <= j)%nat)
+    (* least among all closed extents *)
+    /\ (forall E, closedO c E -> (forall i, In i cs -> subset (nth_extent (l_exts L) i) E) ->
+          subset (c_extent x) E).
+Proof.
+  intros fuel dfuel c L cs Hwf Hd HB.
+  exact (lattice_join_spec c L dfuel (build_lattice_ok fuel dfuel c L Hwf Hd HB) Hwf Hd cs).
+Qed.
+
+Theorem C07_lattice_meet : forall fuel dfuel c L cs,
+  wf_ctx c -> (Nat.max (nG c) (nM c) <= dfuel)%nat -> build_lattice fuel dfuel (relation_new c) = Ok L ->
+  Forall (fun i => (i < length (l_concepts L))%nat) cs ->
+  exists k x, lattice_meet dfuel L cs = Ok k /\ concept_at L k x
+    (* extent = intersection of the extents *)
+    /\ c_extent x = fold_left Z.land (map (nth_extent (l_exts L)) cs) (ones (nG c))
+    (* lower bound *)
+    /\ (forall i, In i cs -> subset (c_extent x) (nth_extent (l_exts L) i))
+    (* greatest among the members of L *)
+    /\ (forall j y, concept_at L j y ->
+          (forall i, In i cs -> subset (c_extent y) (nth_extent (l_exts L) i)) ->
+          subset (c_extent y) (c_extent x) /\ (j <= k)%nat)
+    (* greatest among all sets of objects *)
+    /\ (forall E, in_range (nG c) E -> (forall i, In i cs -> subset E (nth_extent (l_exts L) i)) ->
+          subset E (c_extent x)).
+Proof.
+  intros fuel dfuel c L cs Hwf Hd HB.
+  exact (lattice_meet_spec c L dfuel (build_lattice_ok fuel dfuel c L Hwf Hd HB) Hwf Hd cs).
+Qed.
+
+(** the empty join is the infimum (position 0), the empty meet the supremum (last position) *)
+Theorem C07_join_nil : forall fuel dfuel c L,
+  wf_ctx c -> (Nat.max (nG c) (nM c) <= dfuel)%nat -> build_lattice fuel dfuel (relation_new c) = Ok L ->
+  lattice_join dfuel L [] = Ok 0%nat.
+Proof.
+  intros fuel dfuel c L Hwf Hd HB.
+  exact (lattice_join_nil c L dfuel (build_lattice_ok fuel dfuel c L Hwf Hd HB) Hwf Hd).
+Qed.
+
+Theorem C07_meet_nil : forall fuel dfuel c L,
+  wf_ctx c -> (Nat.max (nG c) (nM c) <= dfuel)%nat -> build_lattice fuel dfuel (relation_new c) = Ok L ->
+  lattice_meet dfuel L [] = Ok (length (l_concepts L) - 1)%nat.
+Proof.
+  intros fuel dfuel c L Hwf Hd HB.
+  exact (lattice_meet_nil c L dfuel (build_lattice_ok fuel dfuel c L Hwf Hd HB) Hwf Hd).
+Qed.
+
+Theorem C07_join_single : forall fuel dfuel c L i,
+  wf_ctx c -> (Nat.max (nG c) (nM c) <= dfuel)%nat -> build_lattice fuel dfuel (relation_new c) = Ok L ->
+  (i < length (l_concepts L))%nat -> lattice_join dfuel L [i] = Ok i.
+Proof.
+  intros fuel dfuel c L i Hwf Hd HB.
+  exact (lattice_join_single c L dfuel (build_lattice_ok fuel dfuel c L Hwf Hd HB) Hwf Hd i).
+Qed.
+
+Theorem C07_meet_single : forall fuel dfuel c L i,
+  wf_ctx c -> (Nat.max (nG c) (nM c) <= dfuel)%nat -> build_lattice fuel dfuel (relation_new c) = Ok L ->
+  (i < length (l_concepts L))%nat -> lattice_meet dfuel L [i] = Ok i.
+Proof.
+  intros fuel dfuel c L i Hwf Hd HB.
+  exact (lattice_meet_single c L dfuel (build_lattice_ok fuel dfuel c L Hwf Hd HB) Hwf Hd i).
+Qed.
+
+(** * the binary methods / operators agree with the n-ary ones *)
+
+Theorem C07_concept_join_is_nary : forall L dfuel i j, concept_join dfuel L i j = lattice_join dfuel L [i; j].
+Proof. exact concept_join_spec. Qed.
+
+Theorem C07_concept_meet_is_nary : forall fuel dfuel c L i j,
+  wf_ctx c -> (Nat.max (nG c) (nM c) <= dfuel)%nat -> build_lattice fuel dfuel (relation_new c) = Ok L ->
+  concept_meet dfuel L i j = lattice_meet dfuel L [i; j].
+Proof.
+  intros fuel dfuel c L i j Hwf Hd HB.
+  exact (concept_meet_spec c L dfuel (build_lattice_ok fuel dfuel c L Hwf Hd HB) Hd i j).
+Qed.
+
+Theorem C07_concept_join_lub : forall fuel dfuel c L i j,
+  wf_ctx c -> (Nat.max (nG c) (nM c) <= dfuel)%nat -> build_lattice fuel dfuel (relation_new c) = Ok L ->
+  exists k, concept_join dfuel L i j = Ok k /\ (k < length (l_concepts L))%nat
+    /\ nth_extent (l_exts L) k = clO c (Z.lor (nth_extent (l_exts L) i) (nth_extent (l_exts L) j))
+    /\ subset (nth_extent (l_exts L) i) (nth_extent (l_exts L) k)
+    /\ subset (nth_extent (l_exts L) j) (nth_extent (l_exts L) k)
+    /\ forall u, (u < length (l_concepts L))%nat ->
+         subset (nth_extent (l_exts L) i) (nth_extent (l_exts L) u) ->
+         subset (nth_extent (l_exts L) j) (nth_extent (l_exts L) u) ->
+         subset (nth_extent (l_exts L) k) (nth_extent (l_exts L) u).
+Proof.
+  intros fuel dfuel c L i j Hwf Hd HB.
+  exact (concept_join_lub_ext c L (build_lattice_ok fuel dfuel c L Hwf Hd HB) dfuel Hwf Hd i j).
+Qed.
+
+Theorem C07_concept_meet_glb : forall fuel dfuel c L i j,
+  wf_ctx c -> (Nat.max (nG c) (nM c) <= dfuel)%nat -> build_lattice fuel dfuel (relation_new c) = Ok L ->
+  (i < length (l_concepts L))%nat -> (j < length (l_concepts L))%nat ->
+  exists k, concept_meet dfuel L i j = Ok k /\ (k < length (l_concepts L))%nat
+    /\ nth_extent (l_exts L) k = Z.land (nth_extent (l_exts L) i) (nth_extent (l_exts L) j)
+    /\ subset (nth_extent (l_exts L) k) (nth_extent (l_exts L) i)
+    /\ subset (nth_extent (l_exts L) k) (nth_extent (l_exts L) j)
+    /\ forall l, subset (nth_extent (l_exts L) l) (nth_extent (l_exts L) i) ->
+         subset (nth_extent (l_exts L) l) (nth_extent (l_exts L) j) ->
+         subset (nth_extent (l_exts L) l) (nth_extent (l_exts L) k).
+Proof.
+  intros fuel dfuel c L i j Hwf Hd HB.
+  exact (concept_meet_glb_ext c L (build_lattice_ok fuel dfuel c L Hwf Hd HB) dfuel Hwf Hd i j).
+Qed.
+
+(** * the lattice laws *)
+
+Theorem C07_join_comm : forall fuel dfuel c L i j,
+  wf_ctx c -> (Nat.max (nG c) (nM c) <= dfuel)%nat -> build_lattice fuel dfuel (relation_new c) = Ok L ->
+  concept_join dfuel L i j = concept_join dfuel L j i.
+Proof.
+  intros fuel dfuel c L i j Hwf Hd HB.
+  exact (concept_join_comm c L dfuel (build_lattice_ok fuel dfuel c L Hwf Hd HB) Hwf Hd i j).
+Qed.
+
+Theorem C07_meet_comm : forall L dfuel i j, concept_meet dfuel L i j = concept_meet dfuel L j i.
+Proof. exact concept_meet_comm. Qed.
+
+Theorem C07_join_idem : forall fuel dfuel c L i,
+  wf_ctx c -> (Nat.max (nG c) (nM c) <= dfuel)%nat -> build_lattice fuel dfuel (relation_new c) = Ok L ->
+  (i < length (l_concepts L))%nat -> concept_join dfuel L i i = Ok i.
+Proof.
+  intros fuel dfuel c L i Hwf Hd HB.
+  exact (concept_join_idem c L dfuel (build_lattice_ok fuel dfuel c L Hwf Hd HB) Hwf Hd i).
+Qed.
+
+Theorem C07_meet_idem : forall fuel dfuel c L i,
+  wf_ctx c -> (Nat.max (nG c) (nM c) <= dfuel)%nat -> build_lattice fuel dfuel (relation_new c) = Ok L ->
+  (i < length (l_concepts L))%nat -> concept_meet dfuel L i i = Ok i.
+Proof.
+  intros fuel dfuel c L i Hwf Hd HB.
+  exact (concept_meet_idem c L dfuel (build_lattice_ok fuel dfuel c L Hwf Hd HB) Hwf Hd i).
+Qed.
+
+Theorem C07_join_assoc : forall fuel dfuel c L i j k,
+  wf_ctx c -> (Nat.max (nG c) (nM c) <= dfuel)%nat -> build_lattice fuel dfuel (relation_new c) = Ok L ->
+  (i < length (l_concepts L))%nat -> (j < length (l_concepts L))%nat -> (k < length (l_concepts L))%nat ->
+  (do a <- concept_join dfuel L i j ;; concept_join dfuel L a k)
+  = (do b <- concept_join dfuel L j k ;; concept_join dfuel L i b).
+Proof.
+  intros fuel dfuel c L i j k Hwf Hd HB.
+  exact (concept_join_assoc c L dfuel (build_lattice_ok fuel dfuel c L Hwf Hd HB) Hwf Hd i j k).
+Qed.
+
+Theorem C07_meet_assoc : forall fuel dfuel c L i j k,
+  wf_ctx c -> (Nat.max (nG c) (nM c) <= dfuel)%nat -> build_lattice fuel dfuel (relation_new c) = Ok L ->
+  (i < length (l_concepts L))%nat -> (j < length (l_concepts L))%nat -> (k < length (l_concepts L))%nat ->
+  (do a <- concept_meet dfuel L i j ;; concept_meet dfuel L a k)
+  = (do b <- concept_meet dfuel L j k ;; concept_meet dfuel L i b).
+Proof.
+  intros fuel dfuel c L i j k Hwf Hd HB.
+  exact (concept_meet_assoc c L dfuel (build_lattice_ok fuel dfuel c L Hwf Hd HB) Hwf Hd i j k).
+Qed.
+
+(** (x | y) | z and (x & y) & z are the n-ary join / meet of the three *)
+Theorem C07_join_assoc_nary : forall fuel dfuel c L i j k,
+  wf_ctx c -> (Nat.max (nG c) (nM c) <= dfuel)%nat -> build_lattice fuel dfuel (relation_new c) = Ok L ->
+  (i < length (l_concepts L))%nat -> (j < length (l_concepts L))%nat -> (k < length (l_concepts L))%nat ->
+  (do a <- concept_join dfuel L i j ;; concept_join dfuel L a k) = lattice_join dfuel L [i; j; k].
+Proof.
+  intros fuel dfuel c L i j k Hwf Hd HB.
+  exact (concept_join_assoc_nary c L dfuel (build_lattice_ok fuel dfuel c L Hwf Hd HB) Hwf Hd i j k).
+Qed.
+
+Theorem C07_meet_assoc_nary : forall fuel dfuel c L i j k,
+  wf_ctx c -> (Nat.max (nG c) (nM c) <= dfuel)%nat -> build_lattice fuel dfuel (relation_new c) = Ok L ->
+  (i < length (l_concepts L))%nat -> (j < length (l_concepts L))%nat -> (k < length (l_concepts L))%nat ->
+  (do a <- concept_meet dfuel L i j ;; concept_meet dfuel L a k) = lattice_meet dfuel L [i; j; k].
+Proof.
+  intros fuel dfuel c L i j k Hwf Hd HB.
+  exact (concept_meet_assoc_nary c L dfuel (build_lattice_ok fuel dfuel c L Hwf Hd HB) Hwf Hd i j k).
+Qed.
+
+(** x | (x & y) is x,  x & (x | y) is x *)
+Theorem C07_absorption_join_meet : forall fuel dfuel c L i j,
+  wf_ctx c -> (Nat.max (nG c) (nM c) <= dfuel)%nat -> build_lattice fuel dfuel (relation_new c) = Ok L ->
+  (i < length (l_concepts L))%nat -> (j < length (l_concepts L))%nat ->
+  (do m <- concept_meet dfuel L i j ;; concept_join dfuel L i m) = Ok i.
+Proof.
+  intros fuel dfuel c L i j Hwf Hd HB.
+  exact (absorption_join_meet c L dfuel (build_lattice_ok fuel dfuel c L Hwf Hd HB) Hwf Hd i j).
+Qed.
+
+Theorem C07_absorption_meet_join : forall fuel dfuel c L i j,
+  wf_ctx c -> (Nat.max (nG c) (nM c) <= dfuel)%nat -> build_lattice fuel dfuel (relation_new c) = Ok L ->
+  (i < length (l_concepts L))%nat -> (j < length (l_concepts L))%nat ->
+  (do m <- concept_join dfuel L i j ;; concept_meet dfuel L i m) = Ok i.
+Proof.
+  intros fuel dfuel c L i j Hwf Hd HB.
+  exact (absorption_meet_join c L dfuel (build_lattice_ok fuel dfuel c L Hwf Hd HB) Hwf Hd i j).
+Qed.
+
+(** * x <= y  iff  x | y is y  iff  x & y is x   ([implies] is the kernel of [Concept.__le__]) *)
+
+Theorem C07_order_iff_join : forall fuel dfuel c L i j,
+  wf_ctx c -> (Nat.max (nG c) (nM c) <= dfuel)%nat -> build_lattice fuel dfuel (relation_new c) = Ok L ->
+  (i < length (l_concepts L))%nat -> (j < length (l_concepts L))%nat ->
+  (subset (nth_extent (l_exts L) i) (nth_extent (l_exts L) j) <-> concept_join dfuel L i j = Ok j).
+Proof.
+  intros fuel dfuel c L i j Hwf Hd HB.
+  exact (order_iff_join c L dfuel (build_lattice_ok fuel dfuel c L Hwf Hd HB) Hwf Hd i j).
+Qed.
+
+Theorem C07_order_iff_meet : forall fuel dfuel c L i j,
+  wf_ctx c -> (Nat.max (nG c) (nM c) <= dfuel)%nat -> build_lattice fuel dfuel (relation_new c) = Ok L ->
+  (i < length (l_concepts L))%nat -> (j < length (l_concepts L))%nat ->
+  (subset (nth_extent (l_exts L) i) (nth_extent (l_exts L) j) <-> concept_meet dfuel L i j = Ok i).
+Proof.
+  intros fuel dfuel c L i j Hwf Hd HB.
+  exact (order_iff_meet c L dfuel (build_lattice_ok fuel dfuel c L Hwf Hd HB) Hwf Hd i j).
+Qed.
+
+Theorem C07_le_iff_join_iff_meet : forall fuel dfuel c L i j sup,
+  wf_ctx c -> (Nat.max (nG c) (nM c) <= dfuel)%nat -> build_lattice fuel dfuel (relation_new c) = Ok L ->
+  (i < length (l_concepts L))%nat -> (j < length (l_concepts L))%nat ->
+  (implies (nth_extent (l_exts L) i) (nth_extent (l_exts L) j) sup = Ok true <-> concept_join dfuel L i j = Ok j)
+  /\ (concept_join dfuel L i j = Ok j <-> concept_meet dfuel L i j = Ok i)
+  /\ (implies (nth_extent (l_exts L) i) (nth_extent (l_exts L) j) sup = Ok true <-> concept_meet dfuel L i j = Ok i).
+Proof.
+  intros fuel dfuel c L i j sup Hwf Hd HB.
+  exact (implies_iff_join_iff_meet c L dfuel (build_lattice_ok fuel dfuel c L Hwf Hd HB) Hwf Hd i j sup).
+Qed.
+
+(** * spec level: [double] is the closure; lub / glb among closed extents *)
 
 Theorem C07_double_is_closure : forall fuel c A,
   wf_ctx c -> in_range (nG c) A -> (Nat.max (nG c) (nM c) <= fuel)%nat ->
@@ -49,7 +294,23 @@ Theorem C07_order_from_join_meet : forall c a b, closedO c a -> closedO c b ->
   (subset a b <-> clO c (Z.lor a b) = b) /\ (subset a b <-> Z.land a b = a).
 Proof. exact order_join_meet. Qed.
 
+(** * witnesses *)
+
 Example C07_witness :
   let c := mkCtx 3 3 [5; 3; 6] in
   objects_double 4 (relation_new c) (Z.lor 1 2) = Ok 3 /\ closedO c 1 /\ closedO c 2.
 Proof. split; [vm_compute; reflexivity|]. split; (split; [apply in_range_of_bound; cbn; split; [apply Z.leb_le|apply Z.ltb_lt]; reflexivity|vm_compute; reflexivity]). Qed.
+
+(** rows {0,1}, {1,2}, {2,3}, {0,1,2}; members 1 = ({2}), 2 = ({3}), 4 = ({1,3}), 5 = ({0,1,3}),
+    6 = ({1,2,3}) *)
+Example C07_witness_lattice :
+  let c := mkCtx 4 4 [3; 6; 12; 7] in
+  wf_ctx c /\ (Nat.max (nG c) (nM c) <= 4)%nat /\
+  exists L, build_lattice 20 4 (relation_new c) = Ok L /\
+    (lattice_join 4 L [1; 2], concept_join 4 L 1 2, lattice_meet 4 L [4; 5], concept_meet 4 L 4 5,
+     lattice_join 4 L [], lattice_meet 4 L [])%nat
+    = (Ok 6, Ok 6, Ok 4, Ok 4, Ok 0, Ok 7)%nat.
+Proof.
+  cbv zeta. split; [apply wf_ctxb_sound; vm_compute; reflexivity|]. split; [apply le_by_leb; vm_compute; reflexivity|].
+  apply witness_intro. vm_compute. reflexivity.
+Qed.
